@@ -615,14 +615,16 @@ def position_to_loop(s, rewrites=None):
         { let mut pos_x: usize = 0; let mut found_x: Option<usize> = None;
           while found_x.is_none() && pos_x < E.len() { let x = &E[pos_x]; if PRED { found_x = Some(pos_x); } else { pos_x += 1; } }
           found_x }
-    (position returns the index of the first element for which the closure is true)."""
-    rx = re.compile(r'((?:self|\w+)(?:\s*\.\s*\w+)*)\s*\.iter\(\)\s*\.position\(\|(\w+)\|\s*')
+    (position returns the index of the first element for which the closure is true). With `.iter().rev().position(..)` the loop
+    looks at E[len - 1 - pos]: the index returned counts from the back."""
+    rx = re.compile(r'((?:self|\w+)(?:\s*\.\s*\w+)*)\s*\.iter\(\)(\s*\.rev\(\))?\s*\.position\(\|(\w+)\|\s*')
     while True:
         m = rx.search(s)
         if not m:
             return s
         e = re.sub(r'\s+', '', m.group(1))
-        x = m.group(2)
+        rev = bool(m.group(2))
+        x = m.group(3)
         op = s.rfind('(', m.start(), m.end())            # the '(' of position(
         cp = _match(s, op, '(', ')')
         pred = s[m.end():cp].strip()
@@ -634,8 +636,11 @@ def position_to_loop(s, rewrites=None):
                '                if %(p)s { found_%(x)s = Some(pos_%(x)s); } else { pos_%(x)s += 1; }\n'
                '            }\n'
                '            found_%(x)s }') % dict(x=x, e=e, p=pred)
+        if rev:
+            # Rev<Iter>::position counts from the back: 0 is the LAST element
+            new = new.replace('let %s = &%s[pos_%s];' % (x, e, x), 'let %s = &%s[%s.len() - 1 - pos_%s];' % (x, e, e, x))
         if rewrites is not None:
-            rewrites.append('D17 position over %s' % e)
+            rewrites.append('D17 position over %s%s' % (e, ' (reversed: the index counts from the back)' if rev else ''))
         s = s[:m.start()] + new + s[cp + 1:]
 
 
